@@ -437,11 +437,10 @@ func (c06) Exec(sc *sim.Scenario, env *sim.Env) *sim.Violation {
 	if sc.C("dual") != 0 && len(r1.postFail) > 0 {
 		// same history, another label-visiting order: both must satisfy the oracle; the
 		// images after a failed Finalize may differ (probe: the schedule dimension is live)
-		env2 := sim.NewEnv(nil, env.Relax, sc.Seed^0x5bd1e995)
-		env2.SetWatchdog(uint64(len(sc.Ops)+4) * 20000)
-		sim.Activate(env2)
-		r2 := c06run(sc, env2, nil, false)
-		sim.Activate(env)
+		saved := env.Local
+		env.Local = sim.ForkSeed(sc.Seed^0x5bd1e995, "local")
+		r2 := c06run(sc, env, nil, false)
+		env.Local = saved
 		if r2.v != nil {
 			r2.v.Msg += " (second label-visiting order)"
 			return r2.v
